@@ -294,7 +294,7 @@ def chk_lifecycle(ctx):
         def native_mv(m):
             G = nat.grid(m['g_n']); A = nat.support(G, m['a_start'], m['a_end']); v = [ctypes.c_size_t(7) for _ in range(4)]
             rc = nat.call('move', ctypes.c_void_p(A), *[ctypes.byref(x) for x in v])
-            return rc != 0 or (v[0].value, v[1].value) != (m['a_start'], m['a_end']) or (v[2].value, v[3].value) != (0, 0), 'native move construction from [%d,%d) -> target [%d,%d) source [%d,%d)' % (m['a_start'], m['a_end'], v[0].value, v[1].value, v[2].value, v[3].value)
+            return rc != 0 or (v[0].value, v[1].value) != (m['a_start'], m['a_end']) or not py_window_ok(v[2].value, v[3].value, m['g_n']) or v[3].value - v[2].value > 1, 'native move construction from [%d,%d) -> target [%d,%d) source [%d,%d)' % (m['a_start'], m['a_end'], v[0].value, v[1].value, v[2].value, v[3].value)
         nf = native_mv if fn == 'move' else None
         for o in run_paths(ctx, R, W, '@w_' + fn, [bv(mem.base), arg], fn, nf):
             if o.kind != 'ret': prove(R, W, o.st, z3.BoolVal(False), fn + '/never-throws', nf, small_of(W)); continue
@@ -304,7 +304,7 @@ def chk_lifecycle(ctx):
             prove(R, W, o.st, W.ex.peek(o.st, o.st.objs[g['ctrl'].id], 8, 4) == g['uc'] + 1, fn + '/shares-the-grid', None, small_of(W))
             if fn == 'move':
                 vp2, cp2, s2, e2 = W.read_support(o.st, a['obj'].id)
-                prove(R, W, o.st, z3.And(s2 == 0, e2 == 0, vp2 == g['vec'].base, cp2 == g['ctrl'].base), 'move/source-becomes-empty-on-the-same-grid', nf, small_of(W))
+                prove(R, W, o.st, z3.And(valid_window(s2, e2, g['n']), z3.ULE(e2 - s2, 1), vp2 == g['vec'].base, cp2 == g['ctrl'].base), 'move/source-becomes-interval-free-on-the-same-grid', nf, small_of(W))
             else:
                 no_input_writes(R, o, fn)
     # move assignment (distinct objects, and self-move) and copy assignment
@@ -317,7 +317,7 @@ def chk_lifecycle(ctx):
             rc = nat.call('move_assign', ctypes.c_void_p(D), ctypes.c_void_p(A), *[ctypes.byref(x) for x in v])
             src = (m['d_start'], m['d_end']) if alias else (m['a_start'], m['a_end'])
             bad = rc != 0 or not py_window_ok(v[0].value, v[1].value, m['g_n']) or not py_window_ok(v[2].value, v[3].value, m['g_n'])
-            if not alias: bad = bad or (v[0].value, v[1].value) != src or (v[2].value, v[3].value) != (0, 0)
+            if not alias: bad = bad or (v[0].value, v[1].value) != src or v[3].value - v[2].value > 1
             return bad, 'native move assignment (self=%s) -> target [%d,%d) source [%d,%d)' % (alias, v[0].value, v[1].value, v[2].value, v[3].value)
         nf = native_ma if fn == 'move_assign' else None
         for o in run_paths(ctx, R, W, '@w_' + fn, [bv(d['obj'].base), bv(a['obj'].base)], key, nf):
@@ -328,7 +328,7 @@ def chk_lifecycle(ctx):
             if not alias:
                 prove(R, W, o.st, z3.And(ss == a['start'], ee == a['end']), key + '/target-takes-the-window', nf, small_of(W))
                 vp2, cp2, s2, e2 = W.read_support(o.st, a['obj'].id)
-                if fn == 'move_assign': prove(R, W, o.st, z3.And(s2 == 0, e2 == 0, vp2 == g['vec'].base), key + '/source-becomes-empty-on-the-same-grid', nf, small_of(W))
+                if fn == 'move_assign': prove(R, W, o.st, z3.And(valid_window(s2, e2, g['n']), z3.ULE(e2 - s2, 1), vp2 == g['vec'].base), key + '/source-becomes-interval-free-on-the-same-grid', nf, small_of(W))
                 else: prove(R, W, o.st, z3.And(s2 == a['start'], e2 == a['end']), key + '/source-unchanged', None, small_of(W))
             elif fn == 'copy_assign':
                 prove(R, W, o.st, z3.And(ss == d['start'], ee == d['end']), key + '/self-copy-keeps-the-window', None, small_of(W))
